@@ -713,7 +713,15 @@ def run_seq_harness(binary, dfile, tfile, filesdir, flush=False):
         with open(pfile, "w") as f:
             f.writelines(pending)
         args = [pfile, ofile, filesdir] + (["--flush"] if flush else [])
-        rc, out, _ = rv.run_harness(binary, "seq", args, timeout=3600, allow_fail=True, cpu_limit=int(os.environ.get("RV_CPU_LIMIT", "300")))
+        # a call that never returns costs its whole CPU allowance: generous for the first one (a healthy batch needs well
+        # under a minute of CPU), shorter once one has been seen, and after eight of them the rest of the suite is not
+        # run (the verdict is settled; the drivers not run are counted in the log)
+        hangs = sum(1 for c in crashes if c["sig"] in (24, 998))
+        if hangs >= 8:
+            log("seq harness: %d calls never returned; %d drivers of this suite not run" % (hangs, len(pending)))
+            break
+        limit = int(os.environ.get("RV_CPU_LIMIT", "300")) if hangs == 0 else 60
+        rc, out, _ = rv.run_harness(binary, "seq", args, timeout=3600, allow_fail=True, cpu_limit=limit)
         with open(ofile) as f:
             got = f.readlines()
         if rc == 0:
